@@ -90,58 +90,98 @@ func ruleFrameSizeNotJudged(r *Run) {
 	}
 	nSize := 0
 	good := true
-	for _, fn := range funcGroup(nx) {
-		var sizes []ssa.Value
-		for _, c := range callsIn(fn) {
-			if pk, nm := calleePkgName(c); pk == "encoding/binary" && (nm == "Uint32" || nm == "Uint64" || nm == "Uint16") {
-				if v, ok := c.(*ssa.Call); ok {
-					sizes = append(sizes, v)
+	// the decoder: everything of the package reachable from Next
+	var grp []*ssa.Function
+	seenFn := map[*ssa.Function]bool{}
+	var addFn func(f *ssa.Function)
+	addFn = func(f *ssa.Function) {
+		if f == nil || seenFn[f] || f.Blocks == nil || pkgOfFunc(f) != pkgOfFunc(nx) {
+			return
+		}
+		seenFn[f] = true
+		grp = append(grp, f)
+		for _, a := range f.AnonFuncs {
+			addFn(a)
+		}
+		for _, c := range callsIn(f) {
+			addFn(staticCallee(c))
+		}
+	}
+	addFn(nx)
+	derived := map[ssa.Value]bool{}
+	var mark func(v ssa.Value, d int)
+	mark = func(v ssa.Value, d int) {
+		if derived[v] || d > 8 {
+			return
+		}
+		derived[v] = true
+		if v.Referrers() == nil {
+			return
+		}
+		for _, ref := range *v.Referrers() {
+			switch x := ref.(type) {
+			case *ssa.Convert:
+				mark(x, d+1)
+			case *ssa.ChangeType:
+				mark(x, d+1)
+			case *ssa.BinOp:
+				mark(x, d+1)
+			case *ssa.UnOp:
+				if x.Op == token.NOT {
+					mark(x, d+1)
 				}
-			}
-		}
-		if len(sizes) == 0 {
-			continue
-		}
-		nSize += len(sizes)
-		// values derived from the size
-		derived := map[ssa.Value]bool{}
-		var mark func(v ssa.Value, d int)
-		mark = func(v ssa.Value, d int) {
-			if derived[v] || d > 8 {
-				return
-			}
-			derived[v] = true
-			if v.Referrers() == nil {
-				return
-			}
-			for _, ref := range *v.Referrers() {
-				switch x := ref.(type) {
-				case *ssa.Convert:
-					mark(x, d+1)
-				case *ssa.ChangeType:
-					mark(x, d+1)
-				case *ssa.BinOp:
-					mark(x, d+1)
-				case *ssa.UnOp:
-					if x.Op == token.NOT {
-						mark(x, d+1)
-					}
-				case *ssa.Phi:
-					mark(x, d+1)
-				case *ssa.Store:
-					if al, ok := x.Addr.(*ssa.Alloc); ok && x.Val == v {
-						for _, r2 := range *al.Referrers() {
-							if u, ok := r2.(*ssa.UnOp); ok && u.Op == token.MUL {
-								mark(u, d+1)
-							}
+			case *ssa.Phi:
+				mark(x, d+1)
+			case *ssa.Store:
+				if al, ok := x.Addr.(*ssa.Alloc); ok && x.Val == v {
+					for _, r2 := range *al.Referrers() {
+						if u, ok := r2.(*ssa.UnOp); ok && u.Op == token.MUL {
+							mark(u, d+1)
 						}
 					}
 				}
 			}
 		}
-		for _, s := range sizes {
-			mark(s, 0)
+	}
+	for _, fn := range grp {
+		for _, c := range callsIn(fn) {
+			if pk, nm := calleePkgName(c); pk == "encoding/binary" && (nm == "Uint32" || nm == "Uint64" || nm == "Uint16") {
+				if v, ok := c.(*ssa.Call); ok {
+					nSize++
+					mark(v, 0)
+				}
+			}
 		}
+	}
+	// a helper that returns the size: its call sites carry it, and so do the parameters it is passed to
+	for round := 0; round < 4; round++ {
+		for _, fn := range grp {
+			returnsSize := false
+			for _, ret := range returnsOf(fn) {
+				for _, rv := range ret.Results {
+					if derived[rv] {
+						returnsSize = true
+					}
+				}
+			}
+			for _, g := range grp {
+				for _, c := range callsIn(g) {
+					if staticCallee(c) != fn {
+						continue
+					}
+					if v, ok := c.(*ssa.Call); ok && returnsSize && fn.Signature.Results().Len() == 1 {
+						mark(v, 0)
+					}
+					for i, a := range c.Common().Args {
+						if derived[a] && i < len(fn.Params) {
+							mark(fn.Params[i], 0)
+						}
+					}
+				}
+			}
+		}
+	}
+	for _, fn := range grp {
 		for _, b := range fn.Blocks {
 			ifi, ok := b.Instrs[len(b.Instrs)-1].(*ssa.If)
 			if !ok || !derived[ifi.Cond] {
